@@ -634,6 +634,31 @@ def r16_15(run, model):
                        "renaming traits.gom to area.gom makes the package valid")
 
 
+def r16_16(run, model):
+    run.rule("R16.16", "a trait bound names a trait through the file's own imports: wherever name resolution copies the segments of a "
+                       "user-written path into a hir::Path (the bounds of a generic function), the same block tests the path's package with "
+                       "package_allowed and reports a failure - every other position of a file already is (R16.1)")
+    n = 0
+    for f in model.fns(NR):
+        if f.body is None:
+            continue
+        par = None
+        for c in S.walk(f.body):
+            if c["k"] != "Call" or (S.callee_segs(c) or [])[-2:] != ["Path", "new"] or "segments" not in S.norm_ws(run.facts.text(NR, c["sp"])):
+                continue
+            if par is None:
+                par = S.Parents(f.body)
+            n += 1
+            scope = next((a for a in par.ancestors(c) if a["k"] in ("Closure", "Block")), f.body)
+            tests = [i_ for i_ in S.find(scope, "If") if re.search(r"!\s*(ctx\.|self\.)?package_allowed\(", S.norm_ws(run.facts.text(NR, i_["cond"]["sp"]))) and
+                     any(x["k"] == "MethodCall" and x["method"] in ("error", "push") for x in S.walk(i_["then"]))]
+            run.ob("R16.16", f"{f.name}|a path copied into a hir::Path is import-checked", bool(tests), site(NR, c["sp"]),
+                   f"package_allowed tests with a report in the same block: {len(tests)}",
+                   witness="util.gom of package Main has no `import B` but declares fn describe[X: B::Show](x: X): accepted because a sibling "
+                           "file imports B; `dyn B::Show`, `B::foo()`, `impl B::Show for Q` in the same file are all rejected")
+    run.floor("user paths copied segment by segment", n, 1)
+
+
 def run(run, model):
     mir = Mir(run.facts)
     run.try_rule(r16_1, model, mir)
@@ -650,6 +675,7 @@ def run(run, model):
     run.try_rule(r16_13, model)
     run.try_rule(r16_14, model)
     run.try_rule(r16_15, model)
+    run.try_rule(r16_16, model)
     # a stale dependant names items its dependency no longer exports: the pinned-hash comparison is how link reports that (shared with C15 R15.4)
     from rules import c15 as _c15
     run.try_rule(_c15.r15_4, model)
